@@ -351,6 +351,14 @@ def _pn_cand(d):
     return _comm(d, 'BitOr', keep_high, _pn_trunc)
 
 
+def _pn_lower_bound(d):
+    """payload of `expected.checked_sub(hwin)` in its Some arm, i.e. expected - hwin where that does not underflow"""
+    if not (d[0] == 'field' and d[2] == '0' and d[1][0] == 'variant' and d[1][2] == 'Some'):
+        return False
+    cs = d[1][1]
+    return cs[0] == 'call' and cs[1] == 'u64::checked_sub' and len(cs[3]) == 2 and _pn_expected(cs[3][0]) and _pn_hwin(cs[3][1])
+
+
 def rule_d_expand(ctx):
     F = ctx.facts
     ex = ctx.pfn('PacketNumber::expand')
@@ -387,9 +395,18 @@ def rule_d_expand(ctx):
     up = rel_edges(F, ex, lambda o, a, b: o == 'Lt' and _pn_cand(b) and _comm(a, 'Add', _pn_expected, _pn_hwin))
     wn = rel_edges(F, ex, lambda o, a, b: o == 'Lt' and _pn_cand(b) and _pn_win(a))
     # lower edge: expected.checked_sub(hwin).is_some_and(|x| candidate <= x)   (or candidate <= expected - hwin / candidate + hwin <= expected)
-    lo = rel_edges(F, ex, lambda o, a, b: o == 'Le' and ((_pn_cand(a) and _bin(b, 'Sub') and _pn_expected(b[2]) and _pn_hwin(b[3])) or (_comm(a, 'Add', _pn_cand, _pn_hwin) and _pn_expected(b))))
+    #   the Option may also be taken apart by hand: `match expected.checked_sub(hwin) { Some(x) => candidate <= x, None => false }`
+    #   / `if let Some(x) = .. { if candidate <= x ..` -- the payload `(checked_sub(expected, hwin) as Some).0` IS expected - hwin
+    lo_rel = lambda o, a, b: o == 'Le' and ((_pn_cand(a) and ((_bin(b, 'Sub') and _pn_expected(b[2]) and _pn_hwin(b[3])) or _pn_lower_bound(b))) or (_comm(a, 'Add', _pn_cand, _pn_hwin) and _pn_expected(b)))
+    lo = rel_edges(F, ex, lo_rel)
     for br in branches(F, ex):
         d, neg = peel_not(br.desc)
+        if d[0] == 'phi':
+            # a named boolean merged from the arms of the match: it is true only if one of the arms computed the lower-edge relation;
+            # every other arm (None) must be the literal `false` -- `None => true` would claim the edge without a comparison
+            rels = [relation_on(x, True) for x in d[1] if not _is_c(x, 0)]
+            if rels and all(r is not None and lo_rel(*r) for r in rels):
+                lo.append((br, br.target(0 if neg else 1)))
         if d[0] == 'call' and d[1] == 'Option::is_some_and' and len(d[3]) == 2:
             cs, clo = d[3]
             okc = cs[0] == 'call' and cs[1] == 'u64::checked_sub' and len(cs[3]) == 2 and _pn_expected(cs[3][0]) and _pn_hwin(cs[3][1])
